@@ -1,7 +1,7 @@
 (* C16 — Pending-message buffer is bounded and overflow is explicit.
    Only theorem statements, each closed by [exact], each followed by Print Assumptions. *)
 From Coq Require Import ZArith List Bool Lia.
-From PV Require Import sock.Sock sock.SockProofs.
+From PV Require Import sock.Sock sock.SockProofs sock.Drain sock.DrainProofs.
 Import ListNotations.
 Open Scope Z_scope.
 
@@ -63,3 +63,14 @@ Example C16_witness :
     = [EAccept 10 2 17 2 (1025 + 30720); ESendOk].
 Proof. vm_compute. repeat split; reflexivity. Qed.
 Print Assumptions C16_witness.
+
+(* ---- under transport back-pressure (coq/sock/Drain.v): never more than ten entries are held, whatever is sent
+   while drain() is blocked or the link is down; expired entries are discarded and never transmitted *)
+Theorem C16_backpressure_bound : forall c ops s tr, drun (dinit c) ops = Some (s, tr) -> (length (d_queue s) <= 10)%nat.
+Proof. exact drain_bound. Qed.
+Print Assumptions C16_backpressure_bound.
+
+Theorem C16_backpressure_expired_never_sent : forall c ops s tr i t,
+  drun (dinit c) ops = Some (s, tr) -> In (DWrote i t) tr -> exists x, In (DAccept i x) tr /\ t < x.
+Proof. exact drain_expiry. Qed.
+Print Assumptions C16_backpressure_expired_never_sent.
